@@ -207,6 +207,12 @@ def soundness(ck, cases, only=None):
             ck.nontriv(("sound", c.cid, vname))
             msgs = res.get(c.tag)
             if msgs:
+                # only trait errors are this property's business (missing bound, Copy on a non-Copy field, non-Copy union member,
+                # operator on a member without the trait); every other rejection belongs to C01
+                trait_codes = {"E0277", "E0204", "E0740", "E0369", "E0184", "E0599"}
+                if not ({m.split()[0] for m in msgs} & trait_codes):
+                    ck.extra["rejections_left_to_C01"] = ck.extra.get("rejections_left_to_C01", 0) + 1
+                    continue
                 codes = ",".join(sorted({m.split()[0] for m in msgs if m.startswith("E")})) or "error"
                 from .c01 import structure_class
                 ck.violation(f"{c.cid} opts={vname} does-not-compile {codes}",
